@@ -12,6 +12,10 @@ Two(i1, i2) == <<Item(1, i1), Item(2, i2)>>
 StartDisk(s) == CASE s = 0 -> <<>>
                   [] s = 1 -> Two(NoId, NoId)     \* unidentified file
                   [] s = 2 -> Two(3, 1)           \* identified, ids not ascending
+                  [] s = 3 -> Two(NoId, NoId)     \* unidentified file whose trajectories carry a second field set
+\* the field sets every trajectory of the behaviour carries; a "fieldset_mismatch"
+\* addition carries the other flavour: one field set too many (base) or one too few (extras)
+Flavour(s) == IF s = 3 THEN "extras" ELSE "base"
 GInit ==
   /\ start \in Starts
   /\ hist = <<>>
@@ -78,7 +82,7 @@ SimNext == \E j \in {RandomElement(1..Len(Kinds))} :
 SNext == SimNext /\ hist' = Append(hist, Rec) /\ UNCHANGED start
 SSpec == GInit /\ [][SNext]_gvars
 
-Out == [h |-> hist, start |-> start, added |-> added, disk |-> disk, open |-> (mode # "closed"), exists |-> exists]
+Out == [h |-> hist, start |-> start, flavour |-> Flavour(start), added |-> added, disk |-> disk, open |-> (mode # "closed"), exists |-> exists]
 Emit == IF Len(hist) < D THEN TRUE
         ELSE PrintT("@@" \o ToJson(Out)) /\ FALSE
 =============================================================================
